@@ -189,6 +189,8 @@ func newGSUB(table tables.Layout) (GSUB, error) {
 			switch subtable := subtable.(type) {
 			case tables.MultipleSubs:
 				err = subtable.Sanitize()
+			case tables.AlternateSubs:
+				err = subtable.Sanitize()
 			case tables.LigatureSubs:
 				err = subtable.Sanitize()
 			case tables.ContextualSubs:
